@@ -76,6 +76,7 @@ func runC08(c *Ctx, r *Rec) {
 		r.check(okEq, "D1-sibling-agreement", c.fdName(leaf), c.pos(leaf.Pos()), "the compare leaf is Go's == on the same extraction of both operands (true exactly on the = cell on which every rank leaf returns Equal, see C07 D1)",
 			"the intrinsic compare leaf is not `extract(first) == extract(second)`")
 	}
+	checkIntrinsicArms(c, r, cr, rankD, "D1-intrinsic-arms")
 	// unordered cell: compare says false (==), the rank leaf must then not say Equal
 	for _, name := range sortedKeys(cr.ms) {
 		fd := cr.ms[name]
